@@ -171,7 +171,18 @@ def contradictory(run):
     for a, p in lits(run.guards()):
         if seen.setdefault(a, p) != p:
             return True
+    whole = {}
+    for g, p in run.guards():
+        if g[0] == "not":
+            g, p = g[1], not p
+        if whole.setdefault(g, p) != p and _stable_sym(g):
+            return True
     return False
+
+
+def _stable_sym(s):
+    from sa.paths import _stable
+    return _stable(s)
 
 
 def guard_on(run, idx, pred):
